@@ -110,15 +110,16 @@ def simulations(ctx, quick):
 
 def pipeline(ctx, prop):
     quick = ctx.quick()
-    # exhaustive runs (repaired design).  thorough: 3 members with the short session AND 2 members with session 2 / both store kinds
+    # exhaustive runs (repaired design).  thorough: 3 members, short session, current-generation requests (NextCore) AND 2 members, session 2, both store kinds, full Next
     cfgs = ["MC_Group_quick.cfg"] if quick else ["MC_Group_thorough.cfg", "MC_Group_thorough2.cfg"]
 
     def run_mc(cfg):
-        return T.model_check(ctx, T.stage(ctx, DIR, "mc-" + cfg.split(".")[0]), "MC_Group.tla", cfg, coverage=(not quick and cfg == cfgs[0]),
-                             timeout=3000, workers=None if quick else 8)
+        return T.model_check(ctx, T.stage(ctx, DIR, "mc-" + cfg.split(".")[0]), "MC_Group.tla", cfg, coverage=(not quick and cfg == cfgs[-1]),
+                             timeout=5400, workers=None if quick else 8)
     with ThreadPoolExecutor(max_workers=2) as ex:
         mcs = list(ex.map(run_mc, cfgs))
     mc = mcs[0]
+    mc.cov_run = mcs[-1]   # per-action coverage is taken on the configuration with the full Next (thorough2)
     mc.extra = [{"config": c, "states": m.distinct, "transitions": m.generated, "depth": m.depth} for c, m in zip(cfgs, mcs)]
     for e in mc.extra:
         ctx.log("model %(config)s: %(states)d distinct states, %(transitions)d generated, depth %(depth)d" % e)
@@ -209,7 +210,7 @@ def check(ctx, prop):
         "samples": [scheds[0], scheds[-1], [{k2: v for k2, v in r.items() if k2 != "rst"} for r in runs[0][:4]]],
     }
     if not quick:
-        ac = {k2: v[1] for k2, v in mc.action_coverage().items()}
+        ac = {k2: v[1] for k2, v in mc.cov_run.action_coverage().items()}
         cov["action_coverage"] = ac
         dead = [a for a in ("Join", "Sync", "Heartbeat", "Leave", "Commit", "DeleteGroups", "Tick", "Failover") if a in ac and ac[a] == 0]
         if dead or not ac:
